@@ -6,7 +6,7 @@
 (* per case: Init picks the case, Judge evaluates every clause and records *)
 (* the first failing one.                                                  *)
 (***************************************************************************)
-EXTENDS Integers, Sequences, FiniteSets, TLC, Json, IOUtils, Layout, Affine, Template, Streamer
+EXTENDS Integers, Sequences, FiniteSets, TLC, Json, IOUtils, Layout, Affine, Template, Streamer, CsrLayout
 
 Batch == JsonDeserialize(IOEnv.BATCH)
 Cases == Batch.cases
@@ -146,6 +146,9 @@ StreamCase(c) ==
     <<"StepBytes", Steps(c.ub) = nsteps => \A n \in 0..(nsteps - 1) : StepBytes(c.base, c.ub, c.ts, c.sb, c.ss, 8, n) = SchedBytes(c, n)>>
   >>)
 
+(* ---------------- C04 map part: register map injectivity ---------------- *)
+MapCase(c) == First(<< <<"InjectiveRegisterMap", InjectiveMap(c.addrs)>> >>)
+
 EqCase(c) == First(<< <<c.clause, c.x = c.y>> >>)
 
 JudgeObj(c) ==
@@ -161,6 +164,7 @@ JudgeObj(c) ==
     [] c.kind = "stridepat" -> StridePatCase(c)
     [] c.kind = "eq" -> EqCase(c)
     [] c.kind = "stream" -> StreamCase(c)
+    [] c.kind = "regmap" -> MapCase(c)
     [] c.kind = "chosenlayout" -> ChosenLayout(c)
     [] OTHER -> "machinery:unknown-kind"
 
